@@ -19,7 +19,7 @@ def demo_cmd():
     on = False
     for l in lines:
         s = l.strip()
-        if not on and re.match(r'^(cc|gcc|clang)\s', s):
+        if not on and re.match(r'^(cd\s+\S+\s*&&\s*)?(cc|gcc|clang)\s', s):
             on = True
         if on:
             if not s:
